@@ -34,6 +34,8 @@ def gen_cases(tier, seed):
     for cls in [c for c in W.ALL if c not in ("kFlowDecomp", "MinFlowDecomp", "MinFlowDecompCycles")]:
         for i in range(max(8, n // 2)):
             cases.append({"kind": "se", "cls": cls, "rs": f"C10s:{seed}:{cls}:{i}"})
+    for i in range(max(12, n // 2)):
+        cases.append({"kind": "pct", "cls": "kMinPathErrorCycles", "rs": f"C10p:{seed}:{i}"})
     return cases
 
 
@@ -96,6 +98,8 @@ def run_cons(case, viol, obs):
         return None, False, None
     ckey = "subset_constraints" if cyc else "subpath_constraints"
     kw = kw_for(cls, base, k=max(1, len(base["planted"])) + rng.choice([0, 1]))
+    if "optimization_options" in kw and rng.random() < 0.5:
+        del kw["optimization_options"]          # library defaults (greedy pre-check on)
     kw[ckey] = gen.jl(cons)
     cov = rng.choice([1.0, 1.0, 0.75, 0.5, 0.34])
     covlen = None; lengths = {}
@@ -107,6 +111,10 @@ def run_cons(case, viol, obs):
         kw["subpath_constraints_coverage_length"] = covlen; kw["length_attr"] = "len"
     else:
         kw[ckey + "_coverage"] = cov
+        if not cyc and not node and rng.random() < 0.25:
+            # a length attribute is present and named, but coverage is by edge count (coverage_length left at None): lengths must not matter
+            extra = {e: {"len": rng.choice([2, 5, 9])} for e in base["edges"] if rng.random() < 0.8}
+            kw["length_attr"] = "len"
     inst = {"cls": cls, "spec": I.spec_of(base, extra_eattr=extra), "kw": kw}
     M.ROUTES.install(); M.ROUTES.drain(); M.TRACE.install()
     res = run(inst)
@@ -245,6 +253,33 @@ def run_ign(case, viol, obs):
     return hashlib.sha1(desc.encode()).hexdigest()[:14], vals.get("ignore", ("",))[0] == "solved", {"desc": desc[:500], "variants": {k: str(v) for k, v in vals.items()}}
 
 
+def run_pct(case, viol, obs):
+    """elements_to_ignore_percentile=p is documented as ignoring the elements whose weight lies below the p-th percentile:
+    it must behave exactly like elements_to_ignore=<that list> (same solved status, k and objective), edge and node mode."""
+    import numpy as np
+    rng = gen.rng_for(case["rs"]); cls = case["cls"]
+    node = rng.random() < 0.35
+    base = base_for(cls, rng, node)
+    elems = base["nodes"] if node else base["edges"]
+    pct = rng.choice([0, 10, 25, 50, 75])
+    thr = float(np.percentile([base["flow"][e] for e in elems], pct))
+    ign = [e for e in elems if base["flow"][e] < thr]
+    kw0 = kw_for(cls, base, k=max(1, len(base["planted"])) + rng.choice([0, 1]))
+    if rng.random() < 0.4:
+        kw0["k"] = None
+    kwp = dict(kw0, elements_to_ignore_percentile=pct)
+    kwe = dict(kw0, elements_to_ignore=gen.jl(ign)) if ign else dict(kw0)
+    sp = I.spec_of(base)
+    M.TRACE.install()
+    rp = run({"cls": cls, "spec": sp, "kw": kwp}); re_ = run({"cls": cls, "spec": sp, "kw": kwe})
+    obs["c10.percentile_pairs"] += 1
+    sp_, se_ = summary(cls, rp), summary(cls, re_)
+    desc = f"{cls} mode={base['mode']} wt={base['wt']} k={kw0.get('k')} percentile={pct} (threshold {thr}) explicit={ign} " + (f"nodes={sorted(base['flow'].items())} edges={base['edges']}" if node else f"edges={sorted((str(k), v) for k, v in base['flow'].items())}")
+    if "time-limit" not in (sp_[0], se_[0]) and sp_ != se_:
+        viol.append({"sig": f"C10/ignore-percentile-differs-from-explicit-list/{cls}" + ("/node" if node else "") + (f"/{sp_[1]}" if sp_[0] == "exc" else ""), "msg": f"percentile: {sp_}; explicit list: {se_}; {desc}"[:900]})
+    return hashlib.sha1(desc.encode()).hexdigest()[:14], bool(ign), {"desc": desc[:500], "percentile": str(sp_), "explicit": str(se_)}
+
+
 def run_se(case, viol, obs):
     rng = gen.rng_for(case["rs"]); cls = case["cls"]; cyc = cls.endswith("Cycles")
     node = rng.random() < 0.2
@@ -294,7 +329,7 @@ def run_se(case, viol, obs):
 
 def run_case(case):
     viol = []; obs = collections.Counter()
-    key, nontriv, sample = {"cons": run_cons, "ign": run_ign, "se": run_se}[case["kind"]](case, viol, obs)
+    key, nontriv, sample = {"cons": run_cons, "ign": run_ign, "se": run_se, "pct": run_pct}[case["kind"]](case, viol, obs)
     seen = set(); out = []
     for v in viol:
         if v["sig"] not in seen:
